@@ -62,6 +62,9 @@ def _flat_items(c):
     return out
 
 
+_NO_ENCLOSING = object()
+
+
 class Interp:
     def __init__(self, contracts=None, inline=None, env_overrides=None, options=None):
         self.contracts = contracts or {}      # qualname -> callable(interp, st, args, kwargs) -> value
@@ -90,7 +93,62 @@ class Interp:
         for env in frame.closure:
             if name in env:
                 return env[name]
+        v = self.lookup_enclosing(st, frame, name)
+        if v is not _NO_ENCLOSING:
+            return v
         return self.lookup_global(st, frame.modname, name)
+
+    def lookup_enclosing(self, st, frame, name):
+        """a free name of a nested function that its contract does not supply: a sibling `def` of the enclosing function, or a
+        name the enclosing function binds exactly once, to a literal (typically introduced by a refactoring)"""
+        q = getattr(frame.func, "qualname", None) if frame.func is not None else None
+        if not q or "::" not in q:
+            return _NO_ENCLOSING
+        outer = q.rsplit("::", 1)[0]
+        try:
+            ext = extract.extract(outer)
+        except extract.ExtractError:
+            return _NO_ENCLOSING
+        fn = ext.node
+        if not isinstance(fn, ast.FunctionDef):
+            return _NO_ENCLOSING
+        binders = []
+        stack = list(fn.body)
+        while stack:
+            n = stack.pop()
+            if isinstance(n, (ast.FunctionDef, ast.ClassDef)):
+                if n.name == name:
+                    binders.append(n)
+                continue
+            if isinstance(n, ast.Lambda):
+                continue
+            if isinstance(n, (ast.Assign, ast.AugAssign, ast.AnnAssign, ast.For, ast.With, ast.NamedExpr, ast.Import, ast.ImportFrom)):
+                for t in ast.walk(n):
+                    if isinstance(t, ast.Name) and t.id == name and isinstance(t.ctx, ast.Store):
+                        binders.append(n)
+                        break
+                    if isinstance(t, ast.alias) and (t.asname or t.name) == name:
+                        binders.append(n)
+                        break
+            stack.extend(ast.iter_child_nodes(n))
+        if name in [a.arg for a in fn.args.args + fn.args.kwonlyargs + fn.args.posonlyargs] or len(binders) != 1:
+            return _NO_ENCLOSING
+        b = binders[0]
+        if isinstance(b, ast.FunctionDef) and b in fn.body:
+            try:
+                ext2 = extract.extract(outer + "::" + name)
+            except extract.ExtractError:
+                return _NO_ENCLOSING
+            self.assumed.add("free name %s of %s: the sibling function of the enclosing scope, inlined" % (name, q))
+            return VFunc(ext2, [{}] + list(frame.closure), qualname=outer + "::" + name)
+        if isinstance(b, ast.Assign) and b in fn.body and len(b.targets) == 1 and isinstance(b.targets[0], ast.Name):
+            try:
+                ast.literal_eval(b.value)
+            except (ValueError, SyntaxError, TypeError):
+                return _NO_ENCLOSING
+            self.assumed.add("free name %s of %s: the literal the enclosing function binds it to (bound once)" % (name, q))
+            return self.eval(st, Frame({}, [], frame.modname), b.value)
+        return _NO_ENCLOSING
 
     def lookup_global(self, st, modname, name):
         key = (modname, name)
@@ -257,6 +315,12 @@ class Interp:
         raise Unsupported("== between %r and %r" % (type(a).__name__, type(b).__name__))
 
     def identical(self, st, a, b):
+        if st.ghost.get("in_generic_element"):
+            # inside the element expression of a comprehension over a symbolic mapping: `x is None` of an optional value is
+            # the formula itself (no case split on the generic key)
+            for x, y in ((a, b), (b, a)):
+                if isinstance(x, VOpt) and not isinstance(x.val, VOpt) and y is None:
+                    return x.is_none
         a = self.resolve(st, a)
         b = self.resolve(st, b)
         if a is None or b is None:
@@ -1033,6 +1097,8 @@ class Interp:
         item = {"items": VTuple([kv, vv]), "keys": kv, "values": vv}[what]
         self.assign_target(st, inner, g.target, item)
         conds = []
+        saved = st.ghost.get("in_generic_element")
+        st.ghost["in_generic_element"] = True
         try:
             for c in g.ifs:
                 conds.append(self.as_bool_expr(st, self.eval(st, inner, c)))
@@ -1040,6 +1106,8 @@ class Interp:
         except PyRaise as e:
             # the generic key is not known to be a key of M: an exception here says nothing about the real iteration
             raise Unsupported("comprehension element may raise %s at a generic key (line %s)" % (e.exc, g.iter.lineno))
+        finally:
+            st.ghost["in_generic_element"] = saved
         if st.forks != n_forks:
             raise Unsupported("comprehension element branches on the generic key (line %s)" % g.iter.lineno)
         c = VComp(m, k, val, conds)
@@ -1094,8 +1162,8 @@ class Interp:
             return [k for k, _ in v.entries]
         if isinstance(v, str):
             return list(v)
-        if isinstance(v, list):
-            return v
+        if isinstance(v, (list, tuple)):
+            return list(v)
         if v is None:
             self.raise_("TypeError", "'NoneType' object is not iterable")
         if is_num(v):
